@@ -245,9 +245,6 @@ func (s *Scanner) Next() (lexeme.LexEvent, bool) {
 		s.index++
 		switch s.stack.Peek().Type() { //nolint:exhaustive // We handle all cases.
 		case lexeme.LiteralBegin:
-			if s.unfinishedLiteral {
-				break
-			}
 			return s.processingFoundLexeme(lexeme.LiteralEnd), true
 		case lexeme.InlineAnnotationBegin:
 			return s.processingFoundLexeme(lexeme.InlineAnnotationEnd), true
@@ -1265,7 +1262,7 @@ func stateAnyCommentStart(s *Scanner, c byte) state {
 			return s.step(s, c)
 		}
 		return scanContinue
-	} else if s.data.Byte(s.index) == '#' { // third #
+	} else if s.index < s.dataSize && s.data.Byte(s.index) == '#' { // third #
 		s.annotation = annotationNone
 		s.step = stateMultiLineComment
 		return scanContinue
